@@ -93,6 +93,8 @@ func c02Blocks(inner []*Cmd, inner2 []*Cmd) []*Cmd {
 		{K: "for", Var: "y", E: call("range", I(2)), Body: cp(inner)},
 		{K: "for", Var: "y", E: call("range", I(3), I(1)), Body: cp(inner), Else: cp(inner2)},
 		{K: "for", Var: "y", E: call("range", I(1), I(6), I(2)), Body: append([]*Cmd{pr(vr("y"))}, inner...)},
+		// a let that shadows an outer name in the middle of a loop body: each iteration starts with the outer binding again
+		{K: "foreach", Var: "x", E: vr("l"), Body: append([]*Cmd{pr(vr("y")), {K: "let", Var: "y", E: bin("+", vr("x"), I(10))}, pr(vr("y"))}, inner...)},
 		{K: "letc", Var: "y", Body: cp(inner)},
 		{K: "call", Call: &CallSpec{Name: "deep.show", Target: "lib.deep.show", Params: []CallParam{{Key: "x", Content: cp(inner)}}}},
 		{K: "msg", Body: cp(inner)},
